@@ -78,7 +78,9 @@ def new_engine(cset):
     e.captured = set()
     e.cur_key = None
     e.prune_solver = z3.Solver()
-    e.prune_solver.set("timeout", 150)
+    # deterministic budget (z3 resource units, not wall clock) so that the set of explored paths -- and with it the
+    # obligation names -- does not depend on machine load
+    e.prune_solver.set("rlimit", 400000)
     return e
 
 
